@@ -154,8 +154,10 @@ func (language *Language) CompilerPasses() compiler.Passes {
 		&compiler.DisjunctionWithNullToOptional{},
 		&compiler.DisjunctionOfConstantsToEnum{},
 		&compiler.AnonymousEnumToExplicitType{},
+		&compiler.RenameNumericEnumValues{},
 		&compiler.SanitizeEnumMemberNames{},
 		&compiler.FlattenDisjunctions{},
+		&compiler.DisjunctionWithNullToOptional{},
 		&compiler.DisjunctionInferMapping{},
 		&compiler.UndiscriminatedDisjunctionToAny{},
 		&compiler.InlineObjectsWithTypes{
